@@ -280,7 +280,8 @@ pub fn run_program(p: &Program) -> Result<Option<Built>, String> {
                         continue;
                     }
                     role_counter += 1;
-                    let name = format!("role-{role_counter}");
+                    // creation order and alphabetical order of the role names must not coincide
+                    let name = format!("role-{}", [5, 2, 7, 1, 8, 3, 6, 4][(role_counter - 1) % 8]);
                     let seg = format!("p{role_counter}");
                     let prefix = if parent_prefix.is_empty() { seg } else { format!("{parent_prefix}/{seg}") };
                     let mut ks: Vec<usize> = Vec::new();
